@@ -7,7 +7,8 @@ inductive relation over the node table — it mentions neither fuel, nor excepti
 failure location bookkeeping of the code: a task either yields `some (end, tokens)` or `none` (no match).
 The closed theorem `parse … = r → Sem … r` (for the *plain* fragment below) is in `Props/C01Sem.lean`.
 
-Plain fragment (`plainNode`): Literal (both classes), Empty, NoMatch, StringEnd, And (non-empty, no error stop),
+Plain fragment (`plainNode`): Literal (both classes), Empty, NoMatch, StringEnd, the character-class terminals Word /
+CharsNotIn / Keyword / CaselessLiteral / LineEnd / WordStart / WordEnd (taken as given matchers), And (non-empty, no error stop),
 MatchFirst, Opt (no default), OneOrMore / ZeroOrMore (no stop_on), NotAny, FollowedBy, Group, Suppress, assigned
 Forward, plain wrappers; no parse actions / results names, no ignorables. Whitespace skipping (`skipWhitespace`,
 `whiteChars`, `callPreparse`) is unrestricted — it is the point of the property.
@@ -25,7 +26,14 @@ def startAt (nd : Node) (s : List Char) (loc : Nat) (cp : Bool) : Nat :=
 
 abbrev Res := Option (Nat × List Tok)
 
-/-- terminals of the plain fragment, as a function of (kind, input, location): `none` = not a terminal -/
+/-- a terminal's outcome as a result of the reading: a match, or no match -/
+def outRes : Out → Res
+  | .ok e ts => some (e, ts)
+  | _ => none
+
+/-- terminals of the plain fragment, as a function of (kind, input, location): `none` = not a terminal.
+    Literal, Empty, NoMatch and StringEnd are spelled out; for the character-class terminals (Word, CharsNotIn, Keyword,
+    CaselessLiteral, LineEnd, WordStart, WordEnd) the reading takes the terminal's own matcher `termImpl` as given -/
 def leafSem (k : Kind) (s : List Char) (loc : Nat) : Option Res :=
   match k with
   | .lit m => some (if loc < s.length ∧ (s.drop loc).take m.length = m then some (loc + m.length, [.s m]) else none)
@@ -33,7 +41,7 @@ def leafSem (k : Kind) (s : List Char) (loc : Nat) : Option Res :=
   | .empty => some (some (loc, []))
   | .noMatch => some none
   | .stringEnd => some (if loc < s.length then none else some (if loc = s.length then loc + 1 else loc, []))
-  | _ => none
+  | k => (termImpl k s loc).map outRes
 
 /-- the single sub-expression of a transparent wrapper (`ParseElementEnhance.parseImpl`) -/
 def wrapped : Kind → Option Nat
